@@ -57,8 +57,17 @@ def restored_set(prog: Program, rep: Report) -> None:
     for p, conds, stores in recs:
         if p.exit == "raise":
             continue
+        # `ncvar = f.variables.get(var)` + `ncvar is not None` is the membership test `var in f.variables`
+        # (the variables of a dataset are never None); the looked-up value is f.variables[var]
+        get_, item_ = f"{DS}.variables.get({var})", f"{DS}.variables[{var}]"
+        conds = [(t.replace(get_, item_), k) for t, k in conds]
+        stores = [(t.replace(get_, item_), v.replace(get_, item_), n_) for t, v, n_ in stores]
         truth = {}
         for text, taken in conds:
+            if text == f"{item_} is not None":
+                text = f"{var} in {DS}.variables"
+            elif text == f"{item_} is None":
+                text, taken = f"{var} in {DS}.variables", not taken
             truth[text] = taken
         infile = truth.get(f"{var} in {DS}.variables")
         is_inst = truth.get(f"{var} in state.instance_variables")
@@ -260,6 +269,7 @@ def run(prog: Program, rep: Report, tier: str) -> None:
     rep.rule("R08.5", "release rows at the start time are excluded under warm start (strict comparison)", 2)
     rep.rule("R08.6", "file numbering continues from the parsed number (shared with C07 R07.4)", 5)
     rep.rule("R08.7", "time-typed variables: reader inverts the writer's unit conversion", 2)
+    rep.rule("R08.8", "the restarted run predicts as many records as it writes: warm-start record count and skip_initial wiring (shared with C07 R07.2)", 2)
     restored_set(prog, rep)
     npid_provenance(prog, rep)
     config_wiring(prog, rep)
@@ -274,6 +284,13 @@ def run(prog: Program, rep: Report, tier: str) -> None:
     for o in sub3.obligations:
         o.rule = "R08.6"
     rep.obligations.extend(sub3.obligations)
+    # the restarted run completes its files (particle variables, no extra file) only if its predicted
+    # record count equals the number of records it writes
+    sub4 = Report(pid="C08")
+    c07.trip_count_rule(prog, sub4)
+    for o in sub4.obligations:
+        if "warm start" in o.construct or "skip_initial" in o.construct or "loop facts" in o.construct:
+            rep.add("R08.8", o.func, f"[{o.rule}] {o.construct}", o.verdict == "ok" if o.verdict != "undecided" else None, o.what, o.loc)
 
 
 from ..selftest import Mut  # noqa: E402
